@@ -224,6 +224,11 @@ def check_loop(ctx, rep):
                   for c in ast.walk(n.test) if isinstance(c, ast.Call)) for n in ast.walk(main))
     rep.check('C15.L', 'MCMC.run::infinite-hastings-guard', isinf_h, W, None,
               "an infinite Hastings term (operator failure) is not tested before the density is used")
+    nan_p = any(isinstance(n, ast.If) and P in names_in(n.test) and any((dotted_name(c.func) or '').split('.')[-1] in ('isnan', 'isfinite')
+                for c in ast.walk(n.test) if isinstance(c, ast.Call)) for n in ast.walk(main))
+    rep.check('C15.L', 'MCMC.run::nan-density-guard', nan_p, W, None,
+              f"the proposed density `{P}` is never tested for NaN before the acceptance probability is formed: Python's built-in min(0, nan) is 0, so a proposal whose "
+              f"density is NaN is accepted with probability one (and every later ratio is NaN as well)")
     # the decision variable is defined on every path to the `if accepted`
     dnode = node(if_acc)
     defs_nodes = [node(st) for st in ast.walk(main) if isinstance(st, ast.Assign) and any(isinstance(t, ast.Name) and t.id == A for t in st.targets)]
@@ -823,3 +828,9 @@ def run(ctx, rep):
         except Unsupported as u:
             rep.undecided('C15.' + {'check_loop': 'L', 'check_save_restore': 'S', 'check_hastings': 'Q', 'check_tuning': 'A'}[fn.__name__],
                           fn.__name__, f"line {getattr(u.node, 'lineno', 0)}", str(u))
+    # every logged row is self-consistent: loggers (and the sampler) evaluate the model, they never read its cache
+    from props import c11
+    c11.check_cache_bypass(ctx, rep, rule='C15.R', only=lambda m: m.name in ('torchtree.core.logger', 'torchtree.inference.mcmc.mcmc', 'torchtree.inference.sampler'))
+    rep.rule('C15.R', "logged densities are obtained by calling the model (never by reading the value cached by an earlier call)")
+    rep.ok('C15.R', 'loggers::call-the-model', '', {'modules': 3})
+
